@@ -85,13 +85,18 @@ def keysOf (es : List Entry) : List Key := (es.map Entry.key).eraseDups
 
 def groupOf (es : List Entry) (κ : Key) : List Entry := es.filter fun e => e.key == κ
 
-/-- `np.concatenate` accepts the members iff all arrays have the same number of dimensions
-    and the same width -/
-def shapesAgree : List Entry → Bool
+/-- `concatenate_nonempty`: entries without trials (1-dimensional empty array) are skipped -/
+def nonEmptyMembers (ms : List Entry) : List Entry := ms.filter fun e => !e.ee.isEmpty
+
+/-- `np.concatenate` accepts the non-empty members iff all their arrays have the same width -/
+def shapesAgree (ms : List Entry) : Bool :=
+  match nonEmptyMembers ms with
   | [] => true
   | e :: rest => rest.all fun e' => e'.shape == e.shape
 
-/-- groupby(key): `n_trials`, `wall_time` summed; the three columns concatenated;
+/-- groupby(key): `n_trials`, `wall_time` summed over all members; the three columns concatenated
+    over the members that have trials (`concatenate_nonempty`; concatenating lists, an empty column
+    contributes nothing; if every member is empty the first, empty, array is kept: shape `(0,)`);
     `code` (hence k) taken from the first member -/
 def mkGroup (κ : Key) (ms : List Entry) : Except Err Group :=
   if shapesAgree ms then
@@ -102,7 +107,7 @@ def mkGroup (κ : Key) (ms : List Entry) : Except Err Group :=
           ee := ms.flatMap (·.ee)
           success := ms.flatMap (·.success)
           codespace := ms.flatMap (·.codespace)
-          shape := (ms.head?.map (·.shape)).getD none }
+          shape := ((nonEmptyMembers ms).head?.map (·.shape)).getD none }
   else .error .concat
 
 def aggregate (es : List Entry) : Except Err (List Group) :=
@@ -232,20 +237,25 @@ def maxRate : List Row → Option Rat
   | [] => none
   | r :: rs => some (rs.foldl (fun m r' => max m r'.p) r.p)
 
-/-- One call `get_fit_params(p_list[resample], ..., params_0=params_opt)` of the bootstrap loop:
-    `bounds = [min, max]` of the (resampled) error rates; when `params_0[0]` is not inside
-    (also when it is NaN = `none`) it is overwritten *in place* with the midpoint
-    (`params_0[0] = (bounds[0] + bounds[1]) / 2`), and `params_0` is the caller's `params_opt`. -/
-def overwriteStep (cur : Option Rat) (b : Rat × Rat) : Option Rat :=
+/-- The start vector of one call `get_fit_params(p_list[resample], ..., params_0=hint)`:
+    `bounds = [min, max]` of the (resampled) error rates; when `hint[0]` is not inside (also when it
+    is NaN = `none`) the fit starts from the midpoint `(bounds[0] + bounds[1]) / 2` instead.  The
+    replacement is made on a copy (`params_0 = np.array(params_0, dtype=float)`), the caller's
+    array is not touched. -/
+def hintFor (cur : Option Rat) (b : Rat × Rat) : Option Rat :=
   match cur with
   | some c => if b.1 ≤ c ∧ c ≤ b.2 then some c else some ((b.1 + b.2) / 2)
   | none => some ((b.1 + b.2) / 2)
 
-/-- What `fit_fss_params` returns as `params_opt[0]` (reported as `fss_params[0]`), given the value
-    `raw` that `curve_fit` returned for the best fit and the error-rate ranges of the successive
-    bootstrap resamples. -/
+/-- State of the bootstrap loop of `fit_fss_params` as far as `params_opt[0]` is concerned:
+    (`params_opt[0]` after the iterations so far, start values used so far).  Every iteration
+    passes `params_opt` as hint and leaves it unchanged. -/
+def bootstrapLoop (raw : Option Rat) (bounds : List (Rat × Rat)) : Option Rat × List (Option Rat) :=
+  bounds.foldl (fun st b => (st.1, st.2 ++ [hintFor st.1 b])) (raw, [])
+
+/-- what `fit_fss_params` returns as `params_opt[0]` (reported as `fss_params[0]`) -/
 def reportedPth (raw : Option Rat) (bounds : List (Rat × Rat)) : Option Rat :=
-  bounds.foldl overwriteStep raw
+  (bootstrapLoop raw bounds).1
 
 /-! ### quantiles of the bootstrap column (`np.median`, `np.quantile`, linear interpolation) -/
 
